@@ -64,6 +64,20 @@ def render_once(t, bindings):
 def det_cases(draw):
     base = draw(tstrat.templates(depth=2, tales=True, max_elems=8,
                                  repeat_probes=True, dict_attrs=True))
+    if draw(st.booleans()):
+        # the state of every loop name as seen before any loop has run in
+        # this rendering: must not depend on earlier renderings
+        parts = [["lit", "("]]
+        for v in tstrat.LOOPVARS:
+            for a in ("length", "index"):
+                parts.append(["interp", ["pipe", [
+                    ["attr", ["attr", ["var", "repeat"], v], a],
+                    ["const", "'norep'"]]]])
+                parts.append(["lit", ","])
+        parts.append(["lit", ")"])
+        base["nodes"].insert(0, ["elem", {
+            "name": "pre", "attrs": [], "stmts": {}, "order": [0],
+            "close_space": "", "children": [["text", parts]]}])
     seq = [base["bindings"]]
     for _ in range(draw(st.integers(1, 3))):
         seq.append(draw(tstrat.bindings_strategy()))
@@ -109,9 +123,12 @@ class Determinism(Part):
                             {"source": src, "outcome": o.brief()})
         shared = o.value
         for k, b in enumerate(case["sequence"]):
+            # (the shared instance first: what it sees is then preceded by
+            # a rendering with OTHER arguments, the fresh instance's by one
+            # with the same arguments)
+            got, glog, ch1 = render_once(shared, b)
             fresh = PageTemplate(src)
             want, wlog, ch0 = render_once(fresh, b)
-            got, glog, ch1 = render_once(shared, b)
             again, alog, ch2 = render_once(shared, b)
             detail = {"source": src, "call": k, "bindings": b,
                       "sequence": case["sequence"], "fresh": want,
